@@ -176,19 +176,23 @@ pub fn gen_data(r: &mut Rng, rtype: u16, pool: bool) -> GData {
         ),
         T_NULL => GData::Null((0..r.below(20)).map(|_| r.byte()).collect()),
         T_WKS => GData::Wks(r.next() as u32, r.byte(), (0..r.below(10)).map(|_| r.byte()).collect()),
-        T_HINFO => GData::Hinfo(
-            (0..r.below(8)).map(|_| r.byte()).collect(),
-            (0..r.below(8)).map(|_| r.byte()).collect(),
-        ),
+        T_HINFO => GData::Hinfo(char_string(r, 8), char_string(r, 8)),
         T_MINFO => GData::Minfo(gen_name(r, pool), gen_name(r, pool)),
         T_MX => GData::Mx(r.next() as u16, gen_name(r, pool)),
-        T_TXT => GData::Txt(
-            (0..r.below(4))
-                .map(|_| (0..r.below(12)).map(|_| r.byte()).collect())
-                .collect(),
-        ),
+        T_TXT => GData::Txt((0..r.below(4)).map(|_| char_string(r, 12)).collect()),
         _ => GData::Raw((0..r.below(16)).map(|_| r.byte()).collect()),
     }
+}
+
+/// the content of one `<character-string>`: mostly short, now and then at a boundary of the length
+/// octet (a 255-octet string is what long TXT values are chunked into)
+pub fn char_string(r: &mut Rng, short: u64) -> Vec<u8> {
+    let n = if r.chance(1, 10) {
+        *r.pick(&[63u64, 64, 127, 128, 200, 254, 255, 255])
+    } else {
+        r.below(short)
+    };
+    (0..n).map(|_| r.byte()).collect()
 }
 
 pub fn gen_rec(r: &mut Rng, pool: bool, owners: &[GName]) -> GRec {
